@@ -12,8 +12,9 @@ import (
 
 func init() {
 	register(&property{
-		ID:  "C11",
-		Run: runC11,
+		ID:    "C11",
+		Run:   runC11,
+		Modes: []string{"deadlock"},
 		Meta: propMeta{
 			Explanation: "Static clauses of OrderedMap, ShrinkingMap and ds.Set on all CFG paths: (1) head/tail/size/dictionary and the elements' chain pointers are accessed only under the OrderedMap mutex (writes under the write lock), ShrinkingMap's map and deletion counter only under its mutex (helpers caller-holds), locks balanced; (2) coupled state of OrderedMap: a new key is appended at the tail with size++ and a dictionary entry on every path, an existing key is replaced in place, Delete removes the dictionary entry, decrements size and unlinks in both directions with head/tail fixed on the matching nil-edges, Clear resets all four, ForEach/ForEachReverse start at head/tail and follow next/prev; (3) Set protocol lock: every mutation of the underlying map inside set methods happens with applyMutex held (shared for single-element operations, exclusive in Apply/Compute/Replace via the caller-holds helper apply) and no method re-acquires applyMutex while holding it; lock-class order of orderedmap+shrinkingmap acyclic; (4) exact diffs: result sets are filled only on the edge on which the underlying Set/Delete reported a membership change; (5) SetArithmetic routing and threshold comparison table; (6) SerializableOrderedMap writes size (uint32), then key, value per entry in ForEach order and reads them back in the same order, errors checked.",
 			NotDecided:  "linearizability of single-element operations, set-algebra results over values, progress under all interleavings beyond the lock-order facts; race freedom of Element.key/value reads in ForEach (reported as advisory)",
